@@ -6,6 +6,7 @@ import (
 	"io"
 	"math/rand/v2"
 	"net/http"
+	"runtime"
 	"sort"
 	"strconv"
 	"strings"
@@ -635,6 +636,12 @@ func TestC13(t *testing.T) {
 			r.Sample(phase, 1, sc)
 		}
 	}
+	nt := r.N(400, 8000)
+	for i := 0; i < nt; i++ {
+		if r.Mine("T", i) {
+			c13InDispatch(r, fw.Key("T", i), r.Rand("T", i))
+		}
+	}
 	n := r.N(6000, 100000)
 	for i := 0; i < n; i++ {
 		if r.Mine("seq", i) {
@@ -646,5 +653,157 @@ func TestC13(t *testing.T) {
 		if r.Mine("conc", i) {
 			run("conc", i, true)
 		}
+	}
+}
+
+// c13InDispatch: things done while a dispatch is in progress, from inside a callback (real
+// goroutines; no virtual time: a goroutine waiting for the connection's lock is not "durably
+// blocked" for synctest, so the bubble's clock could not advance).
+//
+//   - removers: while the trigger callback runs, nrm goroutines call the same remover of another
+//     callback of the event. None of those calls may return before the callback's last invocation.
+//   - panic: the trigger callback panics once; whether Connect lets the panic through or not, the
+//     connection's registry stays usable afterwards: removers and Subscribe calls return, a later
+//     Connect dispatches to exactly the callbacks subscribed then.
+func c13InDispatch(r *fw.Run, key string, rng *rand.Rand) {
+	mode := []string{"removers", "removers", "panic"}[rng.IntN(3)]
+	triggerTyped := rng.IntN(2) == 0 // trigger subscribed to the type and target to all, or the other way round
+	nrm := 2 + rng.IntN(3)
+	r.Begin(key, fmt.Sprintf("in-dispatch mode=%s trigger_typed=%v removers=%d", mode, triggerTyped, nrm))
+	clock := &mon.Clock{}
+	bodies := []string{"event: t1\ndata: 0\n\nevent: t1\ndata: 1\n\n", "event: t1\ndata: 2\n\n"}
+	attempt := 0
+	rt := &scriptedRT{bodies: func(int, *http.Request) (io.Reader, error) {
+		b := bodies[min(attempt, len(bodies)-1)]
+		attempt++
+		return strings.NewReader(b), nil
+	}}
+	cl := &sse.Client{HTTPClient: &http.Client{Transport: rt}, Backoff: sse.Backoff{MaxRetries: -1}}
+	req, _ := http.NewRequestWithContext(context.Background(), http.MethodGet, "http://verif.invalid/", http.NoBody)
+	conn := cl.NewConnection(req)
+	var mu sync.Mutex
+	var targetInv, controlInv []int64 // stamps
+	var rets []int64
+	var wg sync.WaitGroup
+	var rmTarget sse.EventCallbackRemover
+	fired := false
+	trigger := func(sse.Event) {
+		if fired {
+			return
+		}
+		fired = true
+		if mode == "panic" {
+			panic("callback panics (as a t.Fatal or a bug in application code would)")
+		}
+		for k := 0; k < nrm; k++ {
+			wg.Add(1)
+			go func() {
+				defer wg.Done()
+				rmTarget()
+				st := clock.Tick()
+				mu.Lock()
+				rets = append(rets, st)
+				mu.Unlock()
+			}()
+		}
+		// give them every chance to run while this dispatch still holds whatever it holds
+		for i := 0; i < 2000; i++ {
+			runtime.Gosched()
+		}
+	}
+	target := func(sse.Event) {
+		st := clock.Tick()
+		mu.Lock()
+		targetInv = append(targetInv, st)
+		mu.Unlock()
+	}
+	control := func(sse.Event) {
+		st := clock.Tick()
+		mu.Lock()
+		controlInv = append(controlInv, st)
+		mu.Unlock()
+	}
+	var rmTrigger sse.EventCallbackRemover
+	if triggerTyped {
+		rmTrigger = conn.SubscribeEvent("t1", trigger)
+		rmTarget = conn.SubscribeToAll(target)
+		conn.SubscribeToAll(control)
+	} else {
+		rmTrigger = conn.SubscribeToAll(trigger)
+		rmTarget = conn.SubscribeEvent("t1", target)
+		conn.SubscribeEvent("t1", control)
+	}
+	panicked := false
+	func() {
+		defer func() {
+			if recover() != nil {
+				panicked = true
+			}
+		}()
+		conn.Connect()
+	}()
+	wg.Wait()
+	r.Count("in_dispatch_scenarios", 1)
+	r.Eval(fw.Hash("T", mode, fmt.Sprint(triggerTyped, nrm)), true)
+	if mode == "removers" {
+		mu.Lock()
+		defer mu.Unlock()
+		for _, iv := range targetInv {
+			for _, rt := range rets {
+				if iv > rt {
+					r.Violation(key, []string{"callback_after_unsubscribe_returned", "concurrent_calls_of_one_remover"}, map[string]any{"trigger_typed": triggerTyped, "remover_goroutines": nrm, "target_invocations": targetInv, "remover_returns": rets},
+						"C13: a callback was invoked (stamp %d) after a call of its unsubscribe function had returned (stamp %d): %d goroutines called the remover while a dispatch was in progress", iv, rt, nrm)
+					return
+				}
+			}
+		}
+		if len(controlInv) != 2 {
+			r.Violation(key, []string{"callback_missed_event"}, map[string]any{"control_invocations": len(controlInv)}, "C13: the callback that stays subscribed saw %d of 2 events", len(controlInv))
+		}
+		return
+	}
+	// panic mode: the registry must still work. Calls that need the connection's lock are made from
+	// a goroutine and given a million scheduler yields and two seconds.
+	returns := func(what string, f func()) bool {
+		done := make(chan struct{})
+		go func() { defer close(done); f() }()
+		start := time.Now()
+		for i := 0; ; i++ {
+			select {
+			case <-done:
+				return true
+			default:
+			}
+			if i > 1000000 && time.Since(start) > 2*time.Second {
+				r.Violation(key, []string{"registry_unusable_after_callback_panic"}, map[string]any{"call": what, "connect_panicked": panicked, "trigger_typed": triggerTyped},
+					"C13: after a callback panicked during dispatch, %s does not return (a million scheduler yields and 2 s later)", what)
+				return false
+			}
+			runtime.Gosched()
+		}
+	}
+	if !returns("the unsubscribe function of another callback", rmTarget) {
+		return
+	}
+	if !returns("the unsubscribe function of the panicking callback", rmTrigger) {
+		return
+	}
+	var late []int64
+	if !returns("SubscribeToAll", func() {
+		conn.SubscribeToAll(func(sse.Event) { mu.Lock(); late = append(late, clock.Tick()); mu.Unlock() })
+	}) {
+		return
+	}
+	before := len(controlInv)
+	beforeTarget := len(targetInv)
+	func() {
+		defer func() { recover() }()
+		conn.Connect()
+	}()
+	mu.Lock()
+	defer mu.Unlock()
+	if len(late) != 1 || len(controlInv) != before+1 || len(targetInv) != beforeTarget {
+		r.Violation(key, []string{"registry_wrong_after_callback_panic"}, map[string]any{"connect_panicked": panicked, "late_subscriber_calls": len(late), "control_calls": len(controlInv) - before, "removed_callback_calls": len(targetInv) - beforeTarget},
+			"C13: on the Connect after a callback panic, the new subscriber saw %d events (want 1), the one that stayed %d (want 1), the removed one %d (want 0)", len(late), len(controlInv)-before, len(targetInv)-beforeTarget)
 	}
 }
